@@ -123,6 +123,9 @@ structure Facts where
   /-- `ResizeVolume` reads the volume's size after it has set the `resizing` status, under the manager's
   mutex (false: before the status check, so a second resize can start from a stale total) -/
   resizeStatLocked : Bool := false
+  /-- when an fsync fails, `Sync` leaves the dirty flags of the volumes it has not reached yet set
+  (false: it took the whole set of flags up front and only re-flags the failing volume) -/
+  syncKeepsRest : Bool := true
 deriving DecidableEq, Repr
 
 /-- the tree as it is now (after fix 039186a) -/
@@ -769,6 +772,38 @@ def syncClear (f : Facts) (s : State) (v : Nat) : State × Res :=
                   syncer := some (rem.filter (fun x => x != v)) }, .ok)
       else (s, .badOracle "fsync not done yet")
 
+/-- `vol.Sync()` of a running Sync failed: Sync re-flags the volume and returns the error; the flags
+of the volumes it has not reached yet were never cleared -/
+def syncFsyncFail (f : Facts) (s : State) (v : Nat) : State × Res :=
+  match s.syncer with
+  | none => (s, .badOracle "no Sync running")
+  | some rem =>
+    if f.syncSerial then
+      if s.inflight.contains v then
+        ({ s with changed := addNew v s.changed, inflight := s.inflight.filter (fun x => x != v), syncer := none }, .error "fsync failed")
+      else (s, .badOracle "flag not cleared yet")
+    else
+      if rem.contains v && !s.inflight.contains v then ({ s with syncer := none }, .error "fsync failed")
+      else (s, .badOracle "not to be synced")
+
+/-- An uncontended `Sync()` in which the fsyncs of the volumes `oks` succeeded (in the order the
+implementation happened to take them: oracle) and then, possibly, the fsync of `fail` failed.
+The volumes not reached keep their dirty flag — unless `syncKeepsRest` is off. -/
+def syncPartial (f : Facts) (s : State) (oks : List Nat) (fail : Option Nat) : State × Res :=
+  if !s.inflight.isEmpty || s.syncer.isSome then (s, .badOracle "a Sync is running")
+  else if !oks.all (fun v => s.changed.contains v) then (s, .badOracle "fsync of a volume that is not dirty")
+  else if !(match fail with | some v => s.changed.contains v && !oks.contains v | none => true) then (s, .badOracle "failing volume")
+  else if fail.isNone && !s.changed.all (fun v => oks.contains v || (findVol v s.vols).isNone) then (s, .badOracle "Sync skipped a dirty volume")
+  else
+    let vs := oks.foldl (fun vs v => syncVol v vs) s.vols
+    let changed' :=
+      if f.syncKeepsRest then s.changed.filter (fun v => !oks.contains v)
+      else match fail with
+        | some v => [v]
+        | none => []
+    ({ s with vols := vs, changed := changed', unsynced := s.unsynced.filter (hasDirty vs) },
+      match fail with | some _ => .error "fsync failed" | none => .ok)
+
 def syncEnd (s : State) : State × Res :=
   match s.syncer with
   | some [] => if s.inflight.isEmpty then ({ s with syncer := none }, .ok) else (s, .badOracle "Sync not finished")
@@ -886,6 +921,8 @@ inductive Op where
   | syncClear (v : Nat)
   | syncEnd
   | vmResizeStale (cur v n : Nat) (moves : List Move)
+  | syncFsyncFail (v : Nat)
+  | syncPartial (oks : List Nat) (fail : Option Nat)
 deriving Repr
 
 def step (f : Facts) (s : State) : Op → State × Res
@@ -927,6 +964,8 @@ def step (f : Facts) (s : State) : Op → State × Res
   | .syncClear v => syncClear f s v
   | .syncEnd => syncEnd s
   | .vmResizeStale cur v n moves => vmResizeStale f s cur v n moves
+  | .syncFsyncFail v => syncFsyncFail f s v
+  | .syncPartial oks fail => syncPartial f s oks fail
 
 def run (f : Facts) (s : State) (ops : List Op) : State := ops.foldl (fun s op => (step f s op).1) s
 
